@@ -88,3 +88,29 @@ def Node.itp : Node → F
 
 
 end Osmt.Itp
+
+namespace Osmt.Itp
+/-- the executable part of well-formedness: labels cover the leaf literals, pivots occur with the right signs -/
+def Node.structOk : Node → Bool
+  | .leafA c lab => c.all (fun l => (lab l.var).a || (lab l.var).b)
+  | .leafB c lab => c.all (fun l => (lab l.var).a || (lab l.var).b)
+  | .res n1 n2 p => n1.structOk && n2.structOk &&
+      n1.clause.all (fun l => l.var != p || !l.neg) && n2.clause.all (fun l => l.var != p || l.neg) &&
+      n1.clause.any (fun l => l.var == p) && n2.clause.any (fun l => l.var == p)
+
+/-- the semantic part: every leaf follows from its side -/
+def Node.leavesOk (A B : Asg → Prop) : Node → Prop
+  | .leafA c _ => ∀ σ, A σ → cEval σ c = true
+  | .leafB c _ => ∀ σ, B σ → cEval σ c = true
+  | .res n1 n2 _ => n1.leavesOk A B ∧ n2.leavesOk A B
+
+/-- the labellings that do not depend on proof statistics (`setLeafMcMillanLabeling`, `setLeafPudlakLabeling`,
+`setLeafMcMillanPrimeLabeling`): a variable of A only is `a`, of B only is `b`; an occurrence of a shared variable is labelled `b`
+(McMillan, 0), `ab` (Pudlák, 1) or `a` (McMillan', 2) -/
+def systemLabel (alg : Nat) (inA inB : Var → Bool) (v : Var) : Lbl :=
+  match inA v, inB v with
+  | true, false => ⟨true, false⟩
+  | false, true => ⟨false, true⟩
+  | true, true => if alg == 0 then ⟨false, true⟩ else if alg == 1 then ⟨true, true⟩ else ⟨true, false⟩
+  | false, false => ⟨false, false⟩
+end Osmt.Itp
